@@ -166,6 +166,12 @@ class Check:
                 json.dump(body, f, indent=1, default=str)
             print('VIOLATION property=%s replay=%s' % (self.prop, path))
             print('  detail: ' + json.dumps(sig, default=str)[:600])
+        try:
+            os.makedirs(build.BUILD, exist_ok=True)
+            with open(os.path.join(build.BUILD, 'last_violations_%s.json' % self.prop), 'w') as f:
+                json.dump([dict(sig=s, replay=r) for s, r in self.violations[:200000]], f, indent=1, default=str)
+        except OSError:
+            pass
         cov = dict(coverage)
         cov.setdefault('exhaustive', exhaustive)
         cov['known_finding_hits'] = self.findings.summary()
